@@ -134,6 +134,9 @@ func (e *Exec) freshResult(st *State, rt types.Type, name string) Val {
 		if tup.Len() == 0 {
 			return nil
 		}
+		if tup.Len() == 1 {
+			return e.freshOfType(st, tup.At(0).Type(), e.C.FreshName(name))
+		}
 		tv := make(TupleVal, tup.Len())
 		for i := range tv {
 			tv[i] = e.freshOfType(st, tup.At(i).Type(), e.C.FreshName(name))
